@@ -367,6 +367,12 @@ def binop(interp, st, op, l, r, node=None):
         if rc is None or not I.is_obj(rc):
             raise Outside("concatenation of an opaque object with a list that has symbolic parts", node)
         return z3.Function("obj.concat", I.OBJ_SORT, I.OBJ_SORT, I.OBJ_SORT)(lv, rc)
+    if t in (ast.Add, ast.Sub, ast.Mult) and (I.is_obj(l) or I.is_obj(r) or isinstance(l, I.ObjMethod) or isinstance(r, I.ObjMethod)) and (is_scalar(l) or is_scalar(r)):
+        # a number combined with an element of an opaque object (e.g. seed + worker id): an unknown integer function of the two
+        lv = l.value if isinstance(l, I.ObjMethod) else l
+        rv = r.value if isinstance(r, I.ObjMethod) else r
+        zs = [to_z3(lv), to_z3(rv)]
+        return z3.Function(f"obj.arith.{t.__name__}!" + "_".join(str(z.sort()) for z in zs), *([z.sort() for z in zs] + [z3.IntSort()]))(*zs)
     if t is ast.Div and (I.is_obj(l) or I.is_obj(r) or isinstance(l, I.ObjMethod) or isinstance(r, I.ObjMethod)):
         # `path / name` on opaque objects: an unknown function of the two
         ls = [to_z3(x) for x in V.leaves_of(l) if x is not None and not isinstance(x, str)]
